@@ -92,7 +92,9 @@ EC_CONTEXT = {"indent_width": {"indent_style": "space"}}
 
 
 def probe_files(opt):
-    return dict(SYNTAX_PROBES) if opt == "syntax" else {"probe.lua": PROBE, "sub/second.lua": M.lua_probe(7)}
+    # two files of one directory and one of a sub-directory: what the first file of a directory gets, the
+    # later ones get too
+    return dict(SYNTAX_PROBES) if opt == "syntax" else {"probe.lua": PROBE, "sibling.lua": M.lua_probe(8), "sub/second.lua": M.lua_probe(7)}
 
 
 def other_value(opt, val):
@@ -113,7 +115,7 @@ def flag_argv(opt, val, variant="exact"):
 
 def mk(family, tag, files, argv, stdin=None, **meta):
     c = {"prop": PROP, "family": family, "tag": tag, "files": dict(files), "cwd": "proj", "argv": list(argv), "env": {}, "stdin": stdin}
-    c["files"] = {"proj/" + k: v for k, v in files.items()}
+    c["files"] = {(k if k.startswith("@") else "proj/" + k): v for k, v in files.items()}
     c.update(meta)
     return c
 
@@ -257,6 +259,10 @@ def malformed_cases(tier):
             else:
                 c = mk("malformed", f"{kind}:{key}:toml:check", dict(files, **{"stylua.toml": text}), ["--check", "."], **meta)
             cases.append(c)
+        # the same text as the user-level configuration that --search-parent-directories falls back to
+        loc = ["@xdg/stylua.toml", "@xdg/stylua/stylua.toml", "@home/.config/stylua.toml", "@home/.config/stylua/.stylua.toml"][i % 4]
+        if tier != "quick" or i % 3 == 0:
+            cases.append(mk("malformed", f"{kind}:{key}:user-level:{loc.split('/')[0]}", dict(files, **{loc: text}), ["-s", "."], kind=kind, key=key))
     cases.append(mk("malformed", "missing-file:-:config-path:dir", files, ["--config-path", "conf/missing.toml", "."], kind="missing-config-path", key="-"))
     return cases
 
